@@ -20,7 +20,8 @@ RULE = ("Operation trees over the well-defined atoms: parse, &, | (operands incl
         "results and re-parsed renderings), only/exclude/without_extras; small-scope strata: all string-atom triples "
         "on one variable, all python_version/python_full_version atom pairs, all extra triples, all 4-tuples of a "
         "two-variable atom mix in CNF/DNF shape. Every node value is one normal-form decision. "
-        "Non-trivial/distinct: distinct results that are compounds (MultiMarker / MarkerUnion).")
+        "Non-trivial/distinct: distinct results that are compounds (MultiMarker / MarkerUnion)."
+        " Size strata: order twins behind self-combined ballast, compounds with 33-70 children, heavy term products.")
 ASSUMPTIONS = [
     "normal form is demanded at the public boundary only (inside, intersection()/union() legitimately build raw compounds)",
 ]
